@@ -12,9 +12,9 @@ package restdiff
 // Pre + (key returned by event Ref, if Ref >= 0) + Suf, or the literal Lit when Ref < 0.
 type KeyRef struct {
 	Ref int    `json:"ref"`
-	Pre string `json:"pre,omitempty"` // hex
-	Suf string `json:"suf,omitempty"` // hex
-	Lit string `json:"lit,omitempty"` // hex
+	Pre string `json:"pre,omitempty"` // hex (or rep: form, see Ev.Name)
+	Suf string `json:"suf,omitempty"` // hex (or rep: form)
+	Lit string `json:"lit,omitempty"` // hex (or rep: form)
 }
 
 // Ev is one symbolic event of a history.
@@ -27,7 +27,8 @@ type Ev struct {
 	Ck string `json:"ck,omitempty"`
 	// Q: try unl ren noop
 	Q    string  `json:"q,omitempty"`
-	Name string  `json:"name,omitempty"` // hex
+	// Name: hex, or a compact form for long names: "rep:<unit hex>:<count>[:<suffix hex>]" = unit repeated count times + suffix
+	Name string  `json:"name,omitempty"`
 	Size *int32  `json:"size,omitempty"`
 	Lt   *int32  `json:"lt,omitempty"`
 	Key  *KeyRef `json:"key,omitempty"`
@@ -76,4 +77,9 @@ type Profile struct {
 	Shards    []uint32       `json:"shards"`
 	BadKeyPct int            `json:"bad_key_pct"`
 	BadCkPct  int            `json:"bad_ck_pct"` // c20: share of exchanges with a missing / unknown / empty / mangled cookie
+	// LongPct: share (%) of the histories that also draw lock names from LongNames and literal keys from LongKeys (request
+	// bodies of 1 KB .. 1 MB: transport-level size limits are part of "the same request gets the same response")
+	LongPct   int      `json:"long_pct"`
+	LongNames []string `json:"long_names"` // hex or rep: form
+	LongKeys  []string `json:"long_keys"`  // hex or rep: form
 }
